@@ -6,6 +6,7 @@
 -/
 import Nervus.Driver.Util
 import Nervus.Model.IOSteps
+import Nervus.Model.IndexSteps
 namespace Nervus.Driver.CrashStream
 open Nervus Nervus.Crash Nervus.Driver
 
@@ -143,7 +144,10 @@ def dumpPattern (s : Sys) : String :=
       let pl := if baseThere then
           count tx.props (fun q => runProps.contains q || (m.proot != 0 && treeHas vol m.proot m.ptop q))
         else 0
-      if nn == tx.nodes.length && ee == tx.edges.length && pl == tx.props.length then '1'
+      -- the property scan of the node fails when its seek hits a garbage root or a page that did not
+      -- persist (point lookups in the runs still work)
+      let scanOk := tx.props.isEmpty || m.proot == 0 || scanSeekOk vol m.proot m.ptop (tx.props.headD 0)
+      if nn == tx.nodes.length && ee == tx.edges.length && pl == tx.props.length && scanOk then '1'
       else if nn == 0 && ee == 0 && pl == 0 then '0' else 'p')
     let present := (s.txs.map (fun tx => count tx.nodes (fun x => m.exts.contains x))).foldl (· + ·) 0
     let pat := if chars.isEmpty then "-" else String.ofList chars
@@ -353,8 +357,12 @@ def step (stream : String) (_ : Unit) (ws : List String) : Unit × String × Str
     | none => ((), "bad-op", "-", "")
     | some k =>
       if k > 13 then ((), "bad-op", "-", "") else
-      let m := if k ≥ 10 then "indexed nonode" else "absent nonode"
-      ((), m, "absent nonode", if k ≥ 10 then "C02-index-before-commit" else "")
+      -- computed on the index component of the model (`Model/IndexSteps`)
+      match ixProbe cfgOfSource k ⟨.proc, []⟩ with
+      | none => ((), "open-failed", "absent nonode", "C02-index-before-commit")
+      | some (nodes, hits) =>
+        let m := (if hits.isEmpty then "absent" else "indexed") ++ (if nodes.contains 2001 then " node" else " nonode")
+        ((), m, "absent nonode", if m != "absent nonode" then "C02-index-before-commit" else "")
   | kind :: rest =>
     if kind != "scen" && kind != "scenq" then
       match kind, rest with
